@@ -309,7 +309,7 @@ def colebrook_white(re, d, k, lambda_nikuradse, max_iter, lengths, tolerance=1e-
         return True, lambda_res
 
     res = newton(colebrook_white_implicit, lambda_res[mask], maxiter=max_iter, args=(re[mask], k[mask], d[mask]),
-                 tol=tolerance, full_output=True, fprime=cw_derivative)  # , fprime2=cw_derivative_2)
+                 tol=tolerance, full_output=True, fprime=cw_derivative, disp=False)  # , fprime2=cw_derivative_2)
 
     if lambda_res[mask].size == 1:
         lambda_res[mask] = res[0]
